@@ -73,5 +73,6 @@ int p_codec(void);   /* C01 C02 C03 C04 C07 C08 C10 C11 */
 int p_c05(void); int p_c06(void); int p_c09(void); int p_c12(void); int p_c15(void);
 int p_c16(void); int p_c17(void); int p_c18(void);
 int selftest(void);
+int p_c05_child(void);
 
 #endif
